@@ -1,8 +1,12 @@
 /-
   C08 — Invalid arguments are rejected with an error and no side effects.
+
+  * `check_matches_source` — the conditions of `LLFree::check` are re-derived from the Rust source
+    on every run (`tools/rs2lean.py`, `Gen/Check.lean`) and their conjunction is `ArgsValid`.
 -/
 import LLFreeV.Proofs.Run
 import LLFreeV.Model.Wrapper
+import LLFreeV.Gen.Check
 namespace LLFree.C08
 open LLFree Prog
 
@@ -121,5 +125,17 @@ theorem new_rejects_overlap (c : Cfg) (b : MetaBufs)
 example : ¬ ArgsValid ⟨⟨9, 4⟩, 4096, [(0, 1)], 0, fun _ _ _ => .invalid⟩ 4096 ⟨0, 0, none⟩ ∧
     ArgsValid ⟨⟨9, 4⟩, 4096, [(0, 1)], 0, fun _ _ _ => .invalid⟩ 4095 ⟨0, 0, none⟩ := by
   constructor <;> decide
+
+/-- **The argument check of the model is the one of the current source**: the `ensure!` conditions of
+    `LLFree::check` are regenerated from `core/src/llfree.rs` on every run (`Gen/Check.lean`; the
+    translator also checks that a failing `ensure!` returns `Error::Argument`); their conjunction is
+    exactly `ArgsValid` — the predicate `check_spec` shows the model's `check` to decide. -/
+theorem check_matches_source (c : Cfg) (frame : Nat) (r : Request) :
+    Gen.C.check c.geom.treeOrder c.frames frame r.order ((c.slotRange r.cls).map (·.2)) = decide (ArgsValid c frame r) := by
+  unfold Gen.C.check Gen.C.checkConds ArgsValid
+  simp only [List.all_cons, List.all_nil, id, Bool.and_true, Nat.one_shiftLeft, Option.isSome_map]
+  by_cases h1 : r.order ≤ c.geom.treeOrder <;> by_cases h2 : frame + 2 ^ r.order < 2 ^ 64 <;>
+    by_cases h3 : frame + 2 ^ r.order ≤ c.frames <;> by_cases h4 : frame % 2 ^ r.order = 0 <;>
+    by_cases h5 : (c.slotRange r.cls).isSome = true <;> simp [h1, h2, h3, h4, h5]
 
 end LLFree.C08
